@@ -78,21 +78,67 @@ def partition(items, weight, k):
 
 
 def execute(impl, binp, domain, parts, tier):
+    """Run the groups of every part in one driver process each.  The driver contains faults and hangs itself
+    (sigsetjmp, CPU-time watchdog) and logs them as events; a library call that runs off its range can however
+    damage the process beyond that (the handler faults again and the kernel kills it).  For the implementation
+    under test such a death is a finding, not a harness failure: the group in flight is closed by a `#died` event (judged `crash` by AlgoTrace),
+    the events of the groups that finished are kept and the remaining groups run in a fresh process.  The
+    calibration build (libstdc++) has no such allowance: a death there is a ModelFailure."""
     d = vlib.workdir("traces")
-    tasks = []
-    outs = []
-    for i, grs in enumerate(parts):
+
+    def run_part(i, grs):
         tp = os.path.join(d, "algo_%s_%s_%d.ndjson" % (impl, tier, i))
-        tasks.append(([binp, "run", domain, ",".join("%s/%s" % g for g in grs)], tp))
-        outs.append(tp)
-    res = vlib.run_parallel(tasks, par=8)
+        todo = list(grs)
+        done = {}
+        k = 0
+        with open(tp, "wb") as final:
+            while todo:
+                part = "%s.part%d" % (tp, k)
+                k += 1
+                cmd = [binp, "run", domain, ",".join("%s/%s" % g for g in todo)]
+                rc, err = vlib.run(cmd, part, ok_codes=None)
+                got = {}
+                for line in err.splitlines():
+                    w = line.split()
+                    if len(w) == 4 and w[0] == "GROUP":
+                        got[(w[1], w[2])] = int(w[3])
+                done.update(got)
+                inflight = next((g for g in todo if g not in got), None)
+                if rc != 0 and (impl != "etl" or inflight is None or k > 40):
+                    raise vlib.ModelFailure("driver failed rc=%d: %s\n%s" % (rc, " ".join(cmd), err[-3000:]))
+                last = None
+                with open(part, "rb") as f:
+                    for line in f:
+                        if not line.endswith(b"\n"):
+                            continue                      # the line being written when the process died
+                        final.write(line)
+                        last = line
+                os.remove(part)
+                if rc != 0 and last is not None:
+                    # the driver runs the groups in its own table order: the group in flight is the one the last
+                    # complete event belongs to, unless that group was reported as finished
+                    try:
+                        ev = json.loads(last)
+                        if (ev.get("op"), ev.get("inst")) in todo and (ev.get("op"), ev.get("inst")) not in got:
+                            inflight = (ev["op"], ev["inst"])
+                    except ValueError:
+                        pass
+                if rc == 0:
+                    break
+                done[inflight] = done.get(inflight, 0)
+                final.write((json.dumps({"op": "#died", "inst": inflight[1], "gop": inflight[0], "rc": rc,
+                                         "note": "the driver process died inside this group (a call damaged the process beyond the "
+                                                 "driver's own fault containment); the group's earlier events precede this line"})
+                             + "\n").encode())
+                todo = [g for g in todo if g not in got and g != inflight]
+        return tp, done
+    from concurrent.futures import ThreadPoolExecutor as _TPE
+    with _TPE(max_workers=8) as ex:
+        res = list(ex.map(lambda a: run_part(*a), enumerate(parts)))
     groups = {}
-    for _, err in res:
-        for line in err.splitlines():
-            w = line.split()
-            if w and w[0] == "GROUP":
-                groups[(w[1], w[2])] = int(w[3])
-    return outs, groups
+    for _, g in res:
+        groups.update(g)
+    return [tp for tp, _ in res], groups
 
 
 def validate(traces, cfg, tag, heap):
